@@ -115,7 +115,7 @@ theorem read_sat {m lvl : Nat} {P : PS → Prop} (a : Nat) :
 theorem ext_append {m lvl : Nat} {s : PS} {nd : MNode} {c : List (Nat × Nat)} {t : Nat}
     (hg : applyAct s.heap (.alloc nd) = some (s.heap ++ [nd])) (ho : nd.owner = m ∨ nd.owner = 0) :
     Ext m lvl s { s with heap := s.heap ++ [nd], cache := c, tick := t } := by
-  refine ⟨?_, ?_, ?_, ?_, ?_⟩
+  refine ⟨?_, ?_, ?_, ?_, ?_, ⟨[], by simp⟩⟩
   · intro v hvm hv0 hc
     exact foreign_step hc (by rcases ho with h | h <;> simp [Foreign, h] <;> omega) hg
   · intro l hl; exact vis_of_allocOnly (allocOnly_append _ _) hl
@@ -177,7 +177,7 @@ theorem write_sat {m lvl : Nat} (hl1 : lvl ≤ 1) {P : PS → Prop} (a : Nat) (n
     intro v h; rcases h with h | h
     · rw [hos] at h; cases h
     · right; rw [hown, ← hoo, h]
-  refine ⟨⟨?_, ?_, ?_, ?_, ?_⟩, ⟨?_, ?_, hinv.flat, ?_, hinv.mpos⟩, List.getElem?_set_self hlt⟩
+  refine ⟨⟨?_, ?_, ?_, ?_, ?_, ⟨[], by simp⟩⟩, ⟨?_, ?_, hinv.flat, ?_, hinv.mpos⟩, List.getElem?_set_self hlt⟩
   · intro v hvm hv0 hc
     exact foreign_step hc (by simp [Foreign]; omega) hg
   · intro l hv; exact vis_set_mono ho (hk m) hv
@@ -207,7 +207,7 @@ theorem publish_sat {m : Nat} {P : PS → Prop} (a : Nat) (links : List HLink)
     intro v l hl
     have := hflat l hl
     cases l <;> simp_all [isPtr, Vis]
-  refine ⟨⟨?_, ?_, ?_, ?_, ?_⟩, ⟨?_, ?_, hinv.flat, ?_, hinv.mpos⟩, ⟨_, List.getElem?_set_self hlt, rfl⟩⟩
+  refine ⟨⟨?_, ?_, ?_, ?_, ?_, ⟨[], by simp⟩⟩, ⟨?_, ?_, hinv.flat, ?_, hinv.mpos⟩, ⟨_, List.getElem?_set_self hlt, rfl⟩⟩
   · intro v hvm hv0 hc
     exact foreign_step hc (by simp [Foreign]; omega) hg
   · intro l hv; exact vis_set_mono ho (fun _ => Or.inl rfl) hv
@@ -246,7 +246,7 @@ theorem loadRef_sat {m lvl : Nat} {P : PS → Prop} (E : Env) (n : Nat) :
   | none =>
     simp only []
     have hi1 : Inv m { s with tick := s.tick + 1 } := ⟨hinv.closed, hinv.du, hinv.flat, hinv.cache, hinv.mpos⟩
-    have he1 : Ext m lvl s { s with tick := s.tick + 1 } := Ext.of_heap_eq rfl
+    have he1 : Ext m lvl s { s with tick := s.tick + 1 } := Ext.of_heap_eq rfl ⟨[], by simp⟩
     cases hf : E.failAt s.tick with
     | true => simp only [if_true]; exact ⟨he1, hi1⟩
     | false =>
